@@ -23,6 +23,7 @@ import concurrent.futures as cf
 from vlib import core, build, gen_cdef as GC
 
 VARIANT = 'plain'
+LEVEL = "fault_enumeration"
 RULE = ("spec = random cdef context (typedef chains, aggregates, enums, constants, functions, "
         "globals; API mode adds '...' items, extern \"Python\", embedding, C source with non-ASCII "
         "comments and LF/CRLF/CR line ends; optional ffi.include() of a second context; dotted "
